@@ -1569,14 +1569,14 @@ FINDINGS = [
     {"status": "fixed", "key": "import-fails:cases:TypeInferenceException:_Unspecified_type_Var(k,", "commit": "8d0afa4",
      "what": "get_vars(id) put the variable declared at line id in scope of a line inserted before it (nat.mult_1_right: new_var k at 0, "
              "cut `k` at 0): the export mentions k before its declaration and cannot be re-imported"},
-    {"status": "fixed", "key": "recheck-fails:fact-with-foreign-hypothesis:apply_backward_step", "commit": "fixes/C13-9.patch",
+    {"status": "fixed", "key": "recheck-fails:fact-with-foreign-hypothesis:apply_backward_step", "commit": "7a9753d",
      "what": "apply_backward_step with a fact that depends on a hypothesis the goal does not have replaced the goal line by one with a "
              "weaker sequent, after which the lines citing it did not re-check (corpus: (A --> B) --> ~B --> ~A, cut ~B at 2, revert_intro "
              "goal 3 fact 1, apply_backward_step negE_gen goal 2 fact 1); now refused by the tactic itself, in search and in apply"},
-    {"status": "fixed", "key": "recheck-fails:fact-with-foreign-hypothesis:rewrite_goal_with_prev", "commit": "fixes/C13-9.patch",
+    {"status": "fixed", "key": "recheck-fails:fact-with-foreign-hypothesis:rewrite_goal_with_prev", "commit": "7a9753d",
      "what": "the same through rewrite_goal_with_prev (corpus: cut `~A <--> C` at 2, revert_intro goal 3 fact 1, rewrite_goal_with_prev "
              "goal 2 fact 1)"},
-    {"status": "fixed", "key": "recheck-fails:fact-with-foreign-hypothesis:z3", "commit": "fixes/C13-10.patch",
+    {"status": "fixed", "key": "recheck-fails:fact-with-foreign-hypothesis:z3", "commit": "cbfaf14",
      "what": "the z3 method overwrote the goal line without its stated sequent; with a fact that depends on a hypothesis the goal lacks "
              "(corpus: perturbed replay of set.card_delete, goal 2.1, fact 2.0) the state no longer re-checked"},
     {"status": "fixed", "key": "import-fails:induction:TypeError:", "commit": "8aad925",
